@@ -37,12 +37,37 @@ class Bound:
 
 
 def _elt_under_binder(ex: Exec, gen: ast.comprehension, it: IterAbs, exprs: list[ast.expr], j):
-    """Evaluate exprs with the comprehension target bound to element j."""
-    with Bound(ex) as b:
-        _bind_target(ex, gen.target, it.get(j))
-        conds = [ex.truth(ex.eval(c)) for c in gen.ifs]
-        vals = [ex.eval(e) for e in exprs]
+    """Evaluate exprs with the comprehension target bound to element j.  Dataclass
+    constructors in the element expression allocate from blocks of ids reserved per
+    construction site (calls.comp_site); the facts about those objects are assumed,
+    quantified over j, once the comprehension's range is known (_commit_allocations)."""
+    saved_ctx = getattr(ex, "comp_ctx", None)
+    ctx = {"j": j, "n": it.n, "base": None, "sites": 0, "facts": []}
+    ex.comp_ctx = ctx if getattr(ex, "bound_depth", 0) == 0 and not ex.spec else None
+    try:
+        with Bound(ex) as b:
+            _bind_target(ex, gen.target, it.get(j))
+            conds = [ex.truth(ex.eval(c)) for c in gen.ifs]
+            vals = [ex.eval(e) for e in exprs]
+    finally:
+        ex.comp_ctx = saved_ctx
+    ex._last_comp_ctx = ctx
     return vals, conds, b.guards
+
+
+def _commit_allocations(ex: Exec, j, rng) -> bool:
+    """Reserve the id blocks used by the element expression and assume what is known about
+    the objects in them.  Returns True if the comprehension allocated."""
+    ctx = getattr(ex, "_last_comp_ctx", None)
+    ex._last_comp_ctx = None
+    if not ctx or not ctx["sites"]:
+        return False
+    ex.alloc = z3.simplify(ctx["base"] + ctx["sites"] * ctx["n"])
+    ex.epochs.append(ex.alloc)
+    for f in ctx["facts"]:
+        ex.assume(z3.ForAll([j], z3.Implies(rng, f)))
+    ex.note_assumption("comprehension allocating records: element j owns the j-th id of a block reserved per construction site; its class and explicitly given fields are as constructed (defaults unspecified)")
+    return True
 
 
 def quantified_all(ex: Exec, node: ast.GeneratorExp, any_: bool = False):
@@ -97,7 +122,8 @@ def eval_comp(ex: Exec, node) -> SV:
     elt = vals[0]
     rng = z3.And(0 <= j, j < it.n, *conds)
     _check_guards(ex, j, rng, guards)
-    if not gen.ifs and it.seq is not None and elt.ty.kind != "raw":
+    allocated = _commit_allocations(ex, j, rng)
+    if not gen.ifs and it.seq is not None and elt.ty.kind != "raw" and not allocated:
         # canonical form: seq.map over the underlying sequence
         x = z3.Const(f"x!{ex.counter}", S.Val)
         with Bound(ex):
@@ -150,6 +176,7 @@ def _dict_comp(ex: Exec, node: ast.DictComp, gen, it: IterAbs, j) -> SV:
     k, v = vals
     rng = z3.And(0 <= j, j < it.n, *conds)
     _check_guards(ex, j, rng, guards)
+    _commit_allocations(ex, j, rng)
     d = ex.new_dict(T.dict_of(k.ty, v.ty))
     oid = ex.ref_id(d)
     dom = ex.fresh("dcdom", S.SETV)
